@@ -2,11 +2,14 @@
 import itertools
 import random
 from vf import Case
+from gen import constants
 from props.regcommon import SIZE
 
 ID = "C04"
 DRIVER = "drv_regtable"
 HARNESS = "h_regtable"
+GEN = [constants.gen]
+TIE = ['Ufw.Tie.RegTable']
 RULE = ("exhaustive small scope: 0-3 areas over a base/size grid (adjacent, overlapping by one atom, reversed order, empty area between "
         "populated ones, areas without write callback, skip-defaults areas, callback-backed areas); 0-4 registers of sizes 1/2/4 atoms at every "
         "placement incl. straddling area ends and holes, reversed and overlapping registers; defaults inside / outside their constraint.  After "
